@@ -81,6 +81,7 @@ type env struct {
 	channel       *muc.Channel
 	outConn       *ibb.Conn
 	wedged        bool
+	ibbAck        string          // how the peer treats the application's IBB <close/> / <data/> requests (under mu)
 	histClose     int             // close the tracked-history iterator after this many results (<0: never)
 	histSent      int             // tracked-history results the peer has sent (under mu)
 	closeEarly    int             // workload 2: iterator helpers close after this many items (<0: read to the end)
